@@ -3,8 +3,8 @@ package main
 import (
 	"errors"
 	"fmt"
-	"os"
 	"net"
+	"os"
 	"regexp"
 	"strconv"
 	"strings"
@@ -38,6 +38,7 @@ type fconn struct {
 	injW     bool // blocked / next Write returns errInjected
 	injRDL   bool // next SetReadDeadline fails
 	injWDL   bool // next SetWriteDeadline fails
+	closeErr bool // Close reports an error (after closing)
 	keepRDL  bool // a forced (past) read deadline stays
 	keepWDL  bool // a forced (past) write deadline stays
 	rdlCalls int32
@@ -127,7 +128,11 @@ func (c *fconn) SetWriteDeadline(t time.Time) error {
 
 func (c *fconn) Close() error {
 	atomic.AddInt32(&c.closes, 1)
-	return c.Conn.Close()
+	err := c.Conn.Close()
+	if c.flag(&c.closeErr) {
+		return errInjected
+	}
+	return err
 }
 
 func (c *fconn) RemoteAddr() net.Addr { return pipeAddr(c.id) }
@@ -437,19 +442,20 @@ func (w *world) settle(cond func() bool) {
 	}
 }
 
-func (w *world) connect() string {
+// deliver creates one connection and hands it to the accept loop (pipe modes: through the in-memory listener,
+// blocking until Accept takes it; tcp: a dial). nil if it could not be delivered.
+func (w *world) deliver() *cstate {
 	id := fmt.Sprintf("w%d-c%d", atomic.AddInt64(&worldSeq, 1), w.nconn)
 	w.nconn++
 	cs := &cstate{id: id, emptyAt: -1}
 	cs.cond = sync.NewCond(&cs.mu)
-	countBefore := int(w.mgr.ConnCount())
 	if w.mode == "tcp" {
 		// the handler looks the connection up by the client's address: keep the registry locked until it is known
 		w.h.mu.Lock()
 		c, err := net.DialTimeout("tcp", w.tl.Addr().String(), ceiling)
 		if err != nil {
 			w.h.mu.Unlock()
-			return "dialerr"
+			return nil
 		}
 		cs.peer = c
 		cs.id = c.LocalAddr().String()
@@ -457,65 +463,117 @@ func (w *world) connect() string {
 		w.h.mu.Unlock()
 		w.all = append(w.all, cs)
 		go cs.drainLoop()
-	} else {
-		a, b := net.Pipe()
-		cs.fc = &fconn{Conn: a, id: id, rt: w.rt, wt: w.wt}
-		cs.peer = b
-		w.h.mu.Lock()
-		w.h.byID[id] = cs
-		w.h.mu.Unlock()
-		w.all = append(w.all, cs)
-		go cs.drainLoop()
-		select {
-		case w.pl.ch <- cs.fc:
-		case <-time.After(ceiling):
-			return "lost"
-		}
+		return cs
 	}
-	registered := func() bool { cs.mu.Lock(); defer cs.mu.Unlock(); return cs.s != nil }
-	closedSeen := func() bool {
-		if cs.fc != nil {
-			return atomic.LoadInt32(&cs.fc.closes) > 0
+	a, b := net.Pipe()
+	cs.fc = &fconn{Conn: a, id: id, rt: w.rt, wt: w.wt}
+	cs.peer = b
+	w.h.mu.Lock()
+	w.h.byID[id] = cs
+	w.h.mu.Unlock()
+	w.all = append(w.all, cs)
+	go cs.drainLoop()
+	select {
+	case w.pl.ch <- cs.fc:
+	case <-time.After(ceiling):
+		return nil
+	}
+	return cs
+}
+
+func (cs *cstate) registered() bool { cs.mu.Lock(); defer cs.mu.Unlock(); return cs.s != nil }
+
+func (cs *cstate) closedSeen() bool {
+	if cs.fc != nil {
+		return atomic.LoadInt32(&cs.fc.closes) > 0
+	}
+	cs.mu.Lock()
+	defer cs.mu.Unlock()
+	return cs.eof
+}
+
+// decided: the accept loop has either closed the connection or started a session whose loops are running
+func (w *world) decided(cs *cstate) bool {
+	if cs.closedSeen() {
+		return true
+	}
+	if !cs.registered() {
+		return false
+	}
+	// tcp: both loop goroutines must have entered their loops before they can be counted
+	cs.mu.Lock()
+	s := cs.s
+	cs.mu.Unlock()
+	return w.mode != "tcp" || loopsOf()[fmt.Sprintf("%p", s)] == 2
+}
+
+// connectN delivers n connections back to back (no observation in between), then waits and classifies them in
+// the order they were delivered. Returns (accepted, rejected, lost).
+func (w *world) connectN(n int) (acc, rej, lost int) {
+	countBefore := int(w.mgr.ConnCount())
+	var cs []*cstate
+	for i := 0; i < n; i++ {
+		if c := w.deliver(); c != nil {
+			cs = append(cs, c)
+		} else {
+			lost++
 		}
-		cs.mu.Lock()
-		defer cs.mu.Unlock()
-		return cs.eof
 	}
 	if w.mode == "pipe" {
 		w.settle(nil)
 	} else {
 		w.waitFor(func() bool {
-			if closedSeen() {
-				return true
+			for _, c := range cs {
+				if !w.decided(c) {
+					return false
+				}
 			}
-			if !registered() {
-				return false
-			}
-			// tcp: both loop goroutines must have entered their loops before they can be counted
-			cs.mu.Lock()
-			s := cs.s
-			cs.mu.Unlock()
-			return w.mode != "tcp" || loopsOf()[fmt.Sprintf("%p", s)] == 2
+			return true
 		})
 	}
-	res := "lost"
-	if registered() {
-		cs.isSession = true
-		w.sess = append(w.sess, cs)
-		res = "acc" + strconv.Itoa(len(w.sess)-1)
-		if w.max >= 0 && countBefore >= w.max {
-			w.hit("C16:accept:surplus-not-closed", fmt.Sprintf("ConnCount()=%d >= maxConn=%d before the connection arrived, yet a session was started", countBefore, w.max))
+	for _, c := range cs {
+		switch {
+		case c.registered():
+			c.isSession = true
+			w.sess = append(w.sess, c)
+			acc++
+		case c.closedSeen():
+			w.rej++
+			rej++
+		default:
+			lost++
 		}
-		if w.mode == "rt" || w.mode == "wt" {
-			w.settle(nil)
-		}
-	} else if closedSeen() {
-		w.rej++
-		res = "rej"
-	} else if w.max >= 0 && countBefore >= w.max {
-		w.hit("C16:accept:surplus-not-closed", fmt.Sprintf("ConnCount()=%d >= maxConn=%d, the surplus connection was neither closed nor served", countBefore, w.max))
 	}
-	return res
+	if w.max >= 0 && countBefore+acc > w.max && acc > 0 {
+		w.hit("C16:accept:surplus-not-closed", fmt.Sprintf("ConnCount()=%d, maxConn=%d, %d connection(s) arrived and %d session(s) were started", countBefore, w.max, n, acc))
+	}
+	if w.max >= 0 && countBefore >= w.max && lost > 0 {
+		w.hit("C16:accept:surplus-not-closed", fmt.Sprintf("ConnCount()=%d >= maxConn=%d, a surplus connection was neither closed nor served", countBefore, w.max))
+	}
+	if acc > 0 && (w.mode == "rt" || w.mode == "wt") {
+		w.settle(nil)
+	}
+	return
+}
+
+func (w *world) connect() string {
+	acc, rej, _ := w.connectN(1)
+	switch {
+	case acc == 1:
+		return "acc" + strconv.Itoa(len(w.sess)-1)
+	case rej == 1:
+		return "rej"
+	}
+	return "lost"
+}
+
+func (w *world) burst(n int) string {
+	acc, rej, lost := w.connectN(n)
+	r := fmt.Sprintf("acc%d,rej%d", acc, rej)
+	if lost > 0 {
+		r += fmt.Sprintf(",lost%d", lost)
+	}
+	return r
 }
 
 // quiesce waits for quiescence. A loop goroutine of the code under test that never parks (it spins) is a finding
@@ -682,6 +740,14 @@ func (w *world) op(f []string) string {
 			cs.readKilled = true
 		}
 		w.settle(func() bool { return cs.peerClosedBy || endedCond() })
+	case "cerr":
+		if w.mode == "tcp" {
+			return "bad-op"
+		}
+		cs.fc.mu.Lock()
+		cs.fc.closeErr = true
+		cs.fc.mu.Unlock()
+		w.settle(nil)
 	case "rerr", "rto", "rdl", "werr", "wto", "wdl":
 		if w.mode == "tcp" {
 			return "bad-op"
